@@ -398,6 +398,12 @@ func (cc *connectUnaryClientConn) validateResponse(response *http.Response) *Err
 			(*connectWireError)(&serverErr),
 			json.Unmarshal,
 		); err == nil {
+			if serverErr.code == 0 {
+				// The body was JSON but carried no usable code (missing, empty or
+				// a numeric code that denotes OK): fall back to the code implied by
+				// the HTTP status rather than returning an error with the OK code.
+				serverErr.code = connectHTTPToCode(response.StatusCode)
+			}
 			serverErr.meta = cc.responseHeader.Clone()
 			mergeHeaders(serverErr.meta, cc.responseTrailer)
 			return &serverErr
